@@ -435,6 +435,17 @@ func bmpPeerDown(ev *watchEventPeer, t uint8, policy bool, pd uint64) *bmp.BMPMe
 	case fsmDeConfigured:
 		reasonCode = bmp.BMP_PEER_DOWN_REASON_PEER_DE_CONFIGURED
 	}
+	// reasons 1 and 3 say that a NOTIFICATION PDU follows: without one
+	// (e.g. a session lost into graceful restart by a TCP failure) the
+	// record would be cut short and could not be parsed
+	if ev.StateReason.BGPNotification == nil {
+		switch reasonCode {
+		case bmp.BMP_PEER_DOWN_REASON_LOCAL_BGP_NOTIFICATION:
+			reasonCode = bmp.BMP_PEER_DOWN_REASON_LOCAL_NO_NOTIFICATION
+		case bmp.BMP_PEER_DOWN_REASON_REMOTE_BGP_NOTIFICATION:
+			reasonCode = bmp.BMP_PEER_DOWN_REASON_REMOTE_NO_NOTIFICATION
+		}
+	}
 	return bmp.NewBMPPeerDownNotification(*ph, uint8(reasonCode), ev.StateReason.BGPNotification, ev.StateReason.Data)
 }
 
